@@ -16,7 +16,7 @@ func init() {
 			"is a branch to a panic or error exit that lies on every path to a normal return, against the documented constant (evaluated from the initialisers); the square roots apply the +1 correction exactly when r² < d, in both precisions; the rounding-mode dispatch of DivIntByU64ToBigDec selects the matching division; SigFigRound does not write its argument.",
 		NotCovered:  []string{"every numeric error bound (Exp2 10^-18, LogBase2 10^-32, Pow precision, sig-fig half-unit)", "monotonicity of the square roots", "binary-search post-conditions"},
 		Assumptions: []string{"math/big.Int.Sqrt returns the floor square root"},
-		MinObl:      95,
+		MinObl:      100,
 		Run:         runC13,
 	})
 }
@@ -118,7 +118,9 @@ func runC13(c *rules.Ctx) {
 	// met — the relative error being the exact decimal quotient |expected−actual| / min(|expected|,|actual|)
 	type cmpSib struct{ fn, diff, minv, gt, quo, addTol, mulTol, eq string }
 	// |expected−actual| and min(|expected|,|actual|) are symmetric: either operand order is the same value
-	sym := func(f, a, b string) string { return "alt(" + f + "(" + a + "," + b + "), " + f + "(" + b + "," + a + "))" }
+	sym := func(f, a, b string) string {
+		return "alt(" + f + "(" + a + "," + b + "), " + f + "(" + b + "," + a + "))"
+	}
 	for _, v := range []cmpSib{
 		{"ErrTolerance.Compare", "sdkmath.LegacyDec.Abs(" + sym("sdkmath.LegacyDec.Sub", "sdkmath.Int.ToLegacyDec(expected)", "sdkmath.Int.ToLegacyDec(actual)") + ")", "sdkmath.Int.ToLegacyDec(" + sym("sdkmath.MinInt", "sdkmath.Int.Abs(expected)", "sdkmath.Int.Abs(actual)") + ")", "sdkmath.LegacyDec.GT", "sdkmath.LegacyDec.Quo", "e.AdditiveTolerance", "e.MultiplicativeTolerance", "sdkmath.Int.Equal(expected,actual) | sdkmath.Int.Equal(actual,expected)"},
 		{"ErrTolerance.CompareBigDec", "osmomath.BigDec.Abs(" + sym("osmomath.BigDec.Sub", "expected", "actual") + ")", sym("osmomath.MinBigDec", "osmomath.BigDec.Abs(expected)", "osmomath.BigDec.Abs(actual)"), "osmomath.BigDec.GT", "osmomath.BigDec.Quo", "osmomath.BigDecFromDec(e.AdditiveTolerance)", "osmomath.BigDecFromDec(e.MultiplicativeTolerance)", "osmomath.BigDec.Equal(expected,actual) | osmomath.BigDec.Equal(actual,expected)"},
@@ -135,6 +137,7 @@ func runC13(c *rules.Ctx) {
 		c.OnlyWhenReturn(M+v.fn, "0", v.eq+" | sdkmath.LegacyDec.IsNil(e.AdditiveTolerance) | not("+v.gt+"("+v.diff+", "+v.addTol+"))",
 			"0 (within tolerance) is returned only when the operands are equal, no additive tolerance is configured, or the absolute error was found within it")
 	}
+	spotPriceRules(c)
 	// SigFigRound must not write its argument (finding F2; shared with C12's effect analysis)
 	sp := c.P.SSAPkg("osmomath")
 	var fns []*ssa.Function
